@@ -28,7 +28,8 @@ func (x *Exec) step(fr *Frame, ins ssa.Instruction, st *State) []alt {
 			st.mem["len:"+m.key] = cell{m, sz}
 			return one(st, m)
 		}
-		if x.UniqueMake {
+		if lv := x.val(fr, ins.Len); x.UniqueMake && !(lv.isConst() && lv.Aux == "0") {
+			// (a slice made empty and appended to is an ordinary list)
 			m := mk("madeslice", fr.ctx+"/"+funcKey(fr.fn)+"."+ins.Name(), ins.Type(), x.curMark())
 			st.mem["len:"+m.key] = cell{m, x.val(fr, ins.Len)}
 			return one(st, m)
